@@ -1,28 +1,300 @@
 package main
 
 import (
+	"bufio"
+	"encoding/json"
 	"fmt"
+	"os"
+	"path/filepath"
+	"sort"
+	"strings"
 	"time"
 )
+
+type knownFinding struct {
+	Prop  string
+	Oblig string
+	Text  string
+}
+
+func readKnown(path string) (known []knownFinding, fixed []string) {
+	f, err := os.Open(path)
+	if err != nil {
+		return
+	}
+	defer f.Close()
+	sc := bufio.NewScanner(f)
+	for sc.Scan() {
+		l := strings.TrimSpace(sc.Text())
+		switch {
+		case strings.HasPrefix(l, "known:"):
+			k := knownFinding{Text: strings.TrimSpace(strings.TrimPrefix(l, "known:"))}
+			for _, f := range strings.Fields(k.Text) {
+				if strings.HasPrefix(f, "property=") {
+					k.Prop = strings.TrimPrefix(f, "property=")
+				}
+				if strings.HasPrefix(f, "obligation=") {
+					k.Oblig = strings.TrimPrefix(f, "obligation=")
+				}
+			}
+			known = append(known, k)
+		case strings.HasPrefix(l, "fixed:"):
+			fixed = append(fixed, l)
+		}
+	}
+	return
+}
+
+type lockFile map[string][]string
+
+func readLock(path string) lockFile {
+	l := lockFile{}
+	b, err := os.ReadFile(path)
+	if err == nil {
+		json.Unmarshal(b, &l)
+	}
+	return l
+}
+
+func hasProp(r *Result, p string) bool {
+	for _, q := range r.Props {
+		if q == p {
+			return true
+		}
+	}
+	return false
+}
+
+var standingAssumptions = []string{
+	"A1 user callbacks are total, deterministic functions of their arguments (panics only modelled inside recover regions)",
+	"A2 input type invariants: Try failures carry a non-nil error, Either values satisfy IsLeft = !IsRight and are non-nil, typeclass instances passed in are non-nil, callbacks non-nil, slice headers well formed",
+	"A3 signed integer arithmetic is mathematical (no overflow); unsigned integers are exact bit-vectors",
+	"A4 strings are an uninterpreted sort (only equality, concatenation unit laws)",
+	"A6 trusted computing base: govc (this verifier), go/ssa and go/types (x/tools v0.29.0), z3 5.1.0 / z3 4.8.12 / cvc5 1.0",
+	"transparent callees: loop-free functions of the module without a contract are unfolded (their body is their definition); generic code is verified at opaque ground types (parametricity)",
+}
 
 func report(p *Program, results []*Result, prop, tier, verif string, loadMs int64, wall time.Duration, verbose, writeLock, noEvidence bool) int {
 	code := 0
 	cnt := map[string]int{}
 	for _, r := range results {
 		cnt[r.Status]++
-		if r.Status != "proved" || verbose {
+		if verbose || (r.Status != "proved" && !r.Vacuity) || (r.Vacuity && r.Status != "refuted") {
 			fmt.Printf("%-9s %s  [%s %dms, vcgen %dms, %d paths] %s\n", r.Status, r.Oblig, r.Solver, r.Millis, r.ExecMs, r.Paths, r.Reason)
 			for _, f := range r.FailPaths {
 				fmt.Printf("          failing: %s\n", f)
 			}
-		}
-		if r.Status == "refuted" {
-			code = 1
 		}
 	}
 	fmt.Printf("summary: %v  load %dms wall %s\n", cnt, loadMs, wall.Round(time.Millisecond))
 	for _, w := range p.Warnings {
 		fmt.Println("warning:", w)
 	}
+	if prop == "" || strings.Contains(prop, ",") {
+		// multi-property runs are for development: no lock / evidence handling
+		for _, r := range results {
+			if r.Status == "refuted" && !r.Vacuity {
+				code = 1
+			}
+		}
+		return code
+	}
+	lockPath := filepath.Join(verif, "obligations.lock.json")
+	lock := readLock(lockPath)
+	known, fixed := readKnown(filepath.Join(verif, "known_findings.txt"))
+	_ = fixed
+	byName := map[string]*Result{}
+	for _, r := range results {
+		byName[r.Oblig] = r
+	}
+	if writeLock {
+		var names []string
+		for _, r := range results {
+			if r.Status == "proved" && !r.Vacuity && hasProp(r, prop) {
+				names = append(names, r.Oblig)
+			}
+		}
+		sort.Strings(names)
+		lock[prop] = names
+		b, _ := json.MarshalIndent(lock, "", " ")
+		os.WriteFile(lockPath, append(b, '\n'), 0o644)
+		fmt.Printf("lock: %d obligations recorded for %s\n", len(names), prop)
+	}
+	claimed := lock[prop]
+	claimedSet := map[string]bool{}
+	for _, n := range claimed {
+		claimedSet[n] = true
+	}
+	isKnown := func(name string) *knownFinding {
+		for i := range known {
+			if known[i].Prop == prop && known[i].Oblig == name {
+				return &known[i]
+			}
+		}
+		return nil
+	}
+	discharged := 0
+	violations := 0
+	var undecided, knownHit, notClaimed, samples []any
+	backends := map[string]int{}
+	var solverMs int64
+	funcs := map[string]bool{}
+	trusted := map[string]bool{}
+	replayDir := filepath.Join(verif, "replays", prop)
+	writeReplay := func(r *Result, why string) string {
+		os.MkdirAll(replayDir, 0o755)
+		path := filepath.Join(replayDir, sanitizeFile(r.Oblig)+".replay.txt")
+		var sb strings.Builder
+		fmt.Fprintf(&sb, "property: %s\nobligation: %s\ncontract: %s\nverdict: %s\nreason: %s\n", prop, r.Oblig, r.Location, r.Status, why)
+		for _, f := range r.FailPaths {
+			fmt.Fprintf(&sb, "failing path: %s\n", f)
+		}
+		fmt.Fprintf(&sb, "solver: %s (%d ms)\n", r.Solver, r.Millis)
+		fmt.Fprintf(&sb, "reproduce: cd /verif && ./check %s quick   (obligation filter: bin/govc check -prop %s -only '%s' -v)\n", prop, prop, r.Oblig)
+		if q, err := os.ReadFile(r.Query); err == nil {
+			// keep the query next to the replay so the solver run can be repeated
+			qp := filepath.Join(replayDir, sanitizeFile(r.Oblig)+".smt2")
+			os.WriteFile(qp, q, 0o644)
+			fmt.Fprintf(&sb, "query: %s\n", qp)
+		}
+		fmt.Fprintf(&sb, "---- solver output ----\n%s\n", truncate(r.Model, 20000))
+		os.WriteFile(path, []byte(sb.String()), 0o644)
+		return path
+	}
+	vacuityBad := 0
+	vacuityChecked := 0
+	for _, r := range results {
+		if !hasProp(r, prop) {
+			continue
+		}
+		for _, f := range r.Funcs {
+			funcs[f] = true
+		}
+		for _, t := range r.Trusted {
+			trusted[t] = true
+		}
+		if r.Vacuity {
+			vacuityChecked++
+			if r.Status != "refuted" {
+				vacuityBad++
+				fmt.Printf("VACUITY-FAILURE property=%s check=%s status=%s (a must-fail reachability check did not fail: contradictory requires or broken engine)\n", prop, r.Oblig, r.Status)
+			}
+			continue
+		}
+		if r.Solver != "" {
+			backends[strings.Fields(r.Solver)[0]]++
+		}
+		solverMs += r.Millis
+		if !claimedSet[r.Oblig] {
+			if k := isKnown(r.Oblig); k != nil && r.Status == "refuted" {
+				fmt.Printf("KNOWN-FINDING: property=%s obligation=%s %s\n", prop, r.Oblig, k.Text)
+				knownHit = append(knownHit, r.Oblig)
+				continue
+			}
+			notClaimed = append(notClaimed, map[string]any{"obligation": r.Oblig, "status": r.Status, "reason": r.Reason})
+			if r.Status == "refuted" {
+				fmt.Printf("UNCLAIMED-REFUTED property=%s obligation=%s (not in the lock file; reported, not a violation)\n", prop, r.Oblig)
+			}
+		}
+	}
+	for _, name := range claimed {
+		r := byName[name]
+		if r == nil {
+			fmt.Printf("UNDECIDED property=%s obligation=%s reason=obligation could not be generated (contract or function missing)\n", prop, name)
+			undecided = append(undecided, map[string]any{"obligation": name, "reason": "not generated"})
+			continue
+		}
+		switch r.Status {
+		case "proved":
+			discharged++
+			if len(samples) < 12 {
+				samples = append(samples, map[string]any{"obligation": r.Oblig, "backend": r.Solver, "solver_ms": r.Millis, "paths": r.Paths, "contract": r.Location})
+			}
+		case "refuted":
+			if k := isKnown(name); k != nil {
+				fmt.Printf("KNOWN-FINDING: property=%s obligation=%s %s\n", prop, name, k.Text)
+				knownHit = append(knownHit, name)
+				continue
+			}
+			path := writeReplay(r, "the solver found a model of the negated obligation (model below)")
+			fmt.Printf("VIOLATION property=%s replay=%s obligation=%s no-failing-input-found\n", prop, path, name)
+			violations++
+		case "unknown":
+			path := writeReplay(r, "obligation was discharged on the unchanged tree and no solver decides it now")
+			fmt.Printf("VIOLATION property=%s replay=%s obligation=%s no-failing-input-found\n", prop, path, name)
+			violations++
+		default:
+			fmt.Printf("UNDECIDED property=%s obligation=%s reason=%s\n", prop, name, r.Reason)
+			undecided = append(undecided, map[string]any{"obligation": name, "reason": r.Reason})
+		}
+	}
+	if violations > 0 {
+		code = 1
+	}
+	if len(claimed) == 0 {
+		fmt.Printf("ERROR property=%s claims no obligations (empty lock entry)\n", prop)
+		code = 2
+	}
+	if vacuityBad > 0 && code == 0 {
+		code = 2
+	}
+	if noEvidence {
+		return code
+	}
+	var fl, tl []string
+	for f := range funcs {
+		fl = append(fl, f)
+	}
+	sort.Strings(fl)
+	for t := range trusted {
+		tl = append(tl, t)
+	}
+	sort.Strings(tl)
+	if samples == nil {
+		samples = []any{"none discharged"}
+	}
+	ev := map[string]any{
+		"property_id": prop,
+		"tier":        tier,
+		"seed":        seedFromEnv(),
+		"level":       "proof",
+		"coverage": map[string]any{
+			"obligations":              len(claimed),
+			"discharged":               discharged,
+			"checker_cmd":              fmt.Sprintf("./check %s %s", prop, tier),
+			"trusted_base":             append([]string{"govc VC generator (/verif/govc)", "golang.org/x/tools/go/ssa v0.29.0", "z3 5.1.0 (z3-new), z3 4.8.12, cvc5 1.0 (portfolio, first definite answer)"}, tl...),
+			"samples":                  samples,
+			"functions_under_contract": fl,
+			"functions_count":          len(fl),
+			"backends":                 backends,
+			"solver_ms_total":          solverMs,
+			"attempted_not_claimed":    notClaimed,
+			"undecided":                undecided,
+			"known_findings_hit":       knownHit,
+			"vacuity_checks":           vacuityChecked,
+			"vacuity_failures":         vacuityBad,
+			"explanation":              "each obligation is one SMT query generated by symbolic execution of the go/ssa form of /repo's working tree; 'discharged' counts obligations of the lock file proved unsat in this run",
+		},
+		"assumptions": append(append([]string(nil), standingAssumptions...), tl...),
+		"wall_s":      wall.Seconds(),
+		"violations":  violations,
+	}
+	os.MkdirAll(filepath.Join(verif, "evidence"), 0o755)
+	b, _ := json.MarshalIndent(ev, "", " ")
+	os.WriteFile(filepath.Join(verif, "evidence", prop+".json"), append(b, '\n'), 0o644)
+	fmt.Printf("evidence: %s obligations=%d discharged=%d violations=%d undecided=%d\n", prop, len(claimed), discharged, violations, len(undecided))
 	return code
+}
+
+func truncate(s string, n int) string {
+	if len(s) > n {
+		return s[:n] + "\n…(truncated)"
+	}
+	return s
+}
+
+func seedFromEnv() int {
+	var v int
+	fmt.Sscanf(os.Getenv("VERIF_SEED"), "%d", &v)
+	return v
 }
